@@ -383,12 +383,18 @@ def main():
             print(k, [r["harness"] + ":" + r["variant"] for r in v["runs"]])
         return 0
     if a[0] == "build":
-        variants = a[1:] or sorted(set(r["variant"] for c in CHECKS.values() for r in c["runs"]))
+        # setup builds what the registered (claimed) checks need; work-in-progress run plans are skipped
+        try:
+            claimed = set(open(os.path.join(VERIF, "claimed.txt")).read().split())
+        except OSError:
+            claimed = set(CHECKS)
+        reg = {k: v for k, v in CHECKS.items() if k in claimed}
+        variants = a[1:] or sorted(set(r["variant"] for c in reg.values() for r in c["runs"]))
         ok = True
         with concurrent.futures.ThreadPoolExecutor(max_workers=2) as ex:
             futs = []
             for v in variants:
-                t = sorted(set(r["harness"] for c in CHECKS.values() for r in c["runs"] if r["variant"] == v))
+                t = sorted(set(r["harness"] for c in reg.values() for r in c["runs"] if r["variant"] == v))
                 futs.append(ex.submit(build, v, ["babylon"] + t))
             ok = all(f.result() for f in futs)
         return 0 if ok else 2
